@@ -13,6 +13,13 @@
 //! first field = time_based + 2*unit_us + 4*unit_ns: with unit_us (unit_ns) = 1 wait_open, window duration,
 //! slow threshold and Advance are in microseconds (nanoseconds); the clock then jumps by the whole amount in
 //! one step: the breaker reads std::time::Instant only, no timer is involved
+//! first field bit 3 (+8) = SLOW LISTENER (driver-only, the model ignores it): an `on_state_transition` listener
+//! lets `wait_open - 1` units of std::time pass inside every state transition (the virtual CLOCK_MONOTONIC is
+//! bumped from inside the listener: time passing INSIDE a poll). The generators set it only on count-based
+//! scripts without slow-call detection, where the breaker reads the clock for nothing but the open period: on
+//! code that timestamps the new state when it becomes observable (after the listeners), every later reading is
+//! shifted by the same amount and the run is indistinguishable from the same script without the bit; code that
+//! timestamps the transition BEFORE the listeners ends its open period `wait_open - 1` units early.
 //! sync field = code(ctl.state_sync()) + 10 if ctl.is_open() disagrees with it + 20 if the service handle's
 //! lock-free view differs from ctl's, in which case + 100 * code(base.state_sync()) as well
 //! trace per event = [r, started (number of inner calls started by this event), state, state_sync,
@@ -163,6 +170,12 @@ fn run(s: &[i128]) -> Vec<i128> {
         }
         if zn(s, 6) != 0 {
             b = b.slow_call_duration_threshold(unit(zn(s, 7)));
+        }
+        if (zn(s, 0).max(0) >> 3) & 1 != 0 && zn(s, 10) >= 2 && zn(s, 10) < 1_000_000_000_000_000 {
+            let bump = unit(zn(s, 10) - 1).as_nanos().min(u64::MAX as u128 / 4) as u64;
+            b = b.on_state_transition(move |_from, _to| {
+                VIRT_NS.fetch_add(bump, std::sync::atomic::Ordering::SeqCst);
+            });
         }
         let layer = b
             .failure_classifier(|r: &Result<i128, i128>| match r {
